@@ -341,6 +341,10 @@ def build(p):
       skip_shuffle=m['skip_shuffle'], seed=None if m['seed_none'] else m['seed'] % 2**32))
   v_init(p)
   v_iter(p)
+  # "every hyper-parameter combination" reaches the view through the public entry point: hparams + keyword overrides
+  from . import C03
+  p.native('ClientDataset.', D, 'entry')
+  C03.v_entry_points(p, only=('shuffle_repeat_batch',))
   p.trust(
       'T-NP: RandomState(seed) is a deterministic function of seed != None; rng.shuffle(buf) '
       'replaces buf by a permutation of itself (uninterpreted SHUF) and advances the generator',
